@@ -43,6 +43,14 @@
 #define pthread_mutex_unlock      te_pthread_mutex_unlock
 #define pthread_cond_init         te_pthread_cond_init
 #define pthread_cond_destroy      te_pthread_cond_destroy
+#define pthread_cond_wait         te_pthread_cond_wait
+#define pthread_cond_signal       te_pthread_cond_signal
+#define pthread_cond_broadcast    te_pthread_cond_broadcast
+#define pthread_rwlock_rdlock     te_pthread_rwlock_rdlock
+#define pthread_rwlock_wrlock     te_pthread_rwlock_wrlock
+#define pthread_rwlock_tryrdlock  te_pthread_rwlock_tryrdlock
+#define pthread_rwlock_trywrlock  te_pthread_rwlock_trywrlock
+#define pthread_rwlock_unlock     te_pthread_rwlock_unlock
 #define pthread_rwlock_init       te_pthread_rwlock_init
 #define pthread_rwlock_destroy    te_pthread_rwlock_destroy
 #endif
